@@ -104,6 +104,19 @@ func (ep *episode) baseFile(spec string) ([]byte, error) {
 		for i := range out {
 			out[i] = byte(r.Uint64())
 		}
+	case "badverts": // N vertex lines, each with a number that does not parse, between intact facets
+		r := simcore.NewRNG(uint64(num(2)))
+		var buf bytes.Buffer
+		buf.WriteString("solid damaged\n")
+		for i := 0; i < num(1); i++ {
+			buf.WriteString(" facet normal 0 0 1\n  outer loop\n")
+			for k := 0; k < 3; k++ {
+				fmt.Fprintf(&buf, "   vertex %d.5 %s %d\n", i, pickBadNumber(r.Intn(100)), k)
+			}
+			buf.WriteString("  endloop\n endfacet\n")
+		}
+		buf.WriteString("endsolid damaged\n")
+		out = buf.Bytes()
 	case "tokens": // random sequence of STL keywords and numbers, one to five tokens per line
 		r := simcore.NewRNG(uint64(num(2)))
 		vocab := []string{"solid", "facet", "normal", "outer", "loop", "vertex", "vertex", "vertex", "endloop", "endfacet", "endsolid", "1", "-2.5", "3e4", "0", "1e-3", "abc", "+7", ".5", "vertex1"}
@@ -242,6 +255,27 @@ func applyOp(b []byte, op string) ([]byte, bool) {
 			return b, false
 		}
 		return append(b, make([]byte, want-int64(len(b)))...), true
+	case "decimal-comma": // written by a program in a locale with decimal commas
+		return bytes.ReplaceAll(b, []byte("."), []byte(",")), bytes.Contains(b, []byte("."))
+	case "bad-every": // every k-th line that ends in a number gets a malformed one
+		k := num(1)
+		if k < 1 {
+			k = 1
+		}
+		lines := bytes.SplitAfter(b, []byte("\n"))
+		cnt, hit := 0, false
+		for i := range lines {
+			f := bytes.Fields(lines[i])
+			if len(f) == 4 && string(f[0]) == "vertex" {
+				cnt++
+				if cnt%k == 0 {
+					f[len(f)-1] = []byte(pickBadNumber(num(2) + cnt))
+					lines[i] = append(bytes.Join(f, []byte(" ")), '\n')
+					hit = true
+				}
+			}
+		}
+		return bytes.Join(lines, nil), hit
 	case "crlf":
 		return bytes.ReplaceAll(b, []byte("\n"), []byte("\r\n")), true
 	case "drop-line", "dup-line", "cut-line", "stray-token", "bad-number":
